@@ -246,7 +246,7 @@ func runChild(planPath, dbPath string, from, to int, crash string, trace bool) (
 	if exe == "" {
 		exe, _ = os.Executable()
 	}
-	cmd := exec.Command(exe, "-test.run", "^$")
+	cmd := exec.Command(exe, append([]string{"-test.run", "^$"}, childCoverArgs()...)...)
 	cmd.Env = append(os.Environ(), "VERIF_CHILD=1", "VERIF_CHILD_PLAN="+planPath, "VERIF_CHILD_DB="+dbPath,
 		fmt.Sprintf("VERIF_CHILD_FROM=%d", from), fmt.Sprintf("VERIF_CHILD_TO=%d", to), "VERIF_CHILD_CRASH="+crash)
 	if trace {
@@ -412,4 +412,13 @@ func realRestartOnce(bin, db string, w *World) (map[string][]byte, map[string]in
 		}
 	}
 	return out, status, false, nil
+}
+
+// childCoverArgs lets tools/reach.sh (a statement-reach measurement, not a check) collect coverage counters from child
+// processes too: with VERIF_CHILD_COVERDIR set, children of a binary built with -cover write their counters there.
+func childCoverArgs() []string {
+	if d := os.Getenv("VERIF_CHILD_COVERDIR"); d != "" {
+		return []string{"-test.gocoverdir=" + d}
+	}
+	return nil
 }
